@@ -159,6 +159,26 @@ def run(tier):
                     v.violation("c11:generated-link-wrong-target", "emitted link target differs from the source", {"scope": scope, "link": l})
     except (tzpipe.CompilerDied, vlib.BuildError) as e:
         v.violation("c11:fresh-compilation-failed", "fresh compilation of tzdata 2025b failed", {"error": str(e)[-600:]})
+    # --- uniqueness is a promise about every database the compiler emits: a source with names whose djb2 hashes collide
+    #     ('Test/Ab' / 'Test/BA': 33*'A'+'b' == 33*'B'+'A') must be refused or come out with distinct ids
+    coll = ("Zone Test/Ab 1:00 - AAA\nZone Test/BA 2:00 - BBB\nZone Test/Plain 3:00 - CCC\n"
+            "Zone Test/AaQ 4:00 - DDD\nZone Test/Ab0 5:00 - EEE\n")          # 'aQ' / 'b0': 33*'a'+'Q' == 33*'b'+'0'
+    assert srcparse.djb2("Test/Ab") == srcparse.djb2("Test/BA") and srcparse.djb2("Test/AaQ") == srcparse.djb2("Test/Ab0")
+    cdir = tzpipe.write_input_dir(coll, out / "in-collide")
+    for scope in ("extended", "basic"):
+        c["collision_sources_compiled"] = c.get("collision_sources_compiled", 0) + 1
+        try:
+            cc = tzpipe.compile_source(cdir, scope, 2000, 2050)
+        except tzpipe.CompilerDied:
+            c["collision_sources_refused"] = c.get("collision_sources_refused", 0) + 1
+            continue
+        seen_ids = {}
+        for name, zi in cc.zone_infos.items():
+            zid = transformer.hash_name(name)
+            if zid in seen_ids:
+                v.violation("c11:compiler-emits-colliding-ids", "the compiler emitted a database in which two zones share an id",
+                            {"scope": scope, "a": seen_ids[zid], "b": name, "id": "0x%08x" % zid})
+            seen_ids[zid] = name
     c.update({"python_hash_checked": n_hash, "baseline_checked": n_base, "python_db_names": n_py, "python_db_common": common_py})
     if c.get("c11.generated_registry_entries", 0) < 600 or c.get("c11.registry_entries", 0) < 600 or c.get("c11.links", 0) < 300 or n_base < 300 or common_py < 300:
         v.inconclusive_because("deciding counters too low: %r" % c)
